@@ -4,9 +4,13 @@ Tie: bounded scheduling programs are interpreted against the real IOLoop (BaseAs
 Lean model (`C38 run`); the two event traces are compared exactly.  The oracle (`C38 spec`) evaluates the Lean trace
 predicates of Spec.lean — the statements proved about the model — on the trace observed from the real loop.
 run_sync is exercised with plain functions, native/generator coroutines and bare futures on an auto-advancing virtual
-clock; the thorough tier adds real threads calling add_callback on a real loop.
+clock; the thorough tier adds real threads calling add_callback on a real loop.  `xloop` cases (both tiers) run two or
+three REAL event loops in their own threads and hand callbacks from one to the other (from a coroutine / callback /
+timer / gen.coroutine / executor thread of loop A, from a plain thread, from the target loop itself) while the target
+is blocked in select(); the branch taken by add_callback and the callbacks run are compared with `C38 xthread`
+(XThread.lean) and the oracle is "each ran exactly once, in order, without anything else having to wake the loop".
 """
-import asyncio, functools, logging, threading, datetime
+import asyncio, functools, logging, threading, datetime, time
 from core.wire import atom, line, parse_reply, Atom
 
 ID = "C38"
@@ -18,26 +22,40 @@ THEOREMS = [_T + n for n in [
     "errors_logged", "errors_do_not_stop_loop", "loop_continues", "run_sync_outcomes", "run_sync_result",
     "run_sync_reraises", "run_sync_timeout", "run_sync_never_completing",
     "invA_step", "invB_step", "invD_step", "invE_step", "invF_step", "reach_inv",
+    "add_callback_any_thread", "add_callback_path", "add_callback_needs_wakeup",
 ]]
 TRUSTED = [
     "asyncio's event loop as abstracted in C38/Model.lean: FIFO ready queue with per-iteration snapshot, timers moved to "
     "the ready queue in order of `when` (ties: any order — a parameter of every theorem), cancelled handles skipped, "
     "Future done-callbacks scheduled with call_soon in registration order",
     "OS threads: add_callback from another thread is an atomic enqueue (call_soon_threadsafe); exercised, not proved",
+    "asyncio's self-pipe as abstracted in C38/XThread.lean: call_soon appends to the ready queue, call_soon_threadsafe "
+    "appends and makes a select() without timeout return; a loop leaves such a select() only when woken",
     "IOLoop.time and the asyncio clock are the same clock (core/vloop.py patches both): clock drift is not modelled",
 ]
 ASSUMPTIONS = [
     "programs: <= 15 scheduling calls, each callback body scheduled at most once, integer tick clock (exact in floats)",
     "run_sync: awaitables whose completion time is a fixed number of ticks; completion time == timeout counts as timeout "
     "(the timeout timer is armed first and asyncio fires equal deadlines in arming order when only two are armed)",
+    "xloop: bursts of add_callback/spawn_callback calls are issued one burst at a time (one scheduling thread at a time), "
+    "the target loop being blocked in select() (no timer, a timer an hour away, asyncio debug mode) or ticking every 20 ms; "
+    "'did not run' is decided without a clock: a callback that has not run when a later raw call_soon_threadsafe probe "
+    "has run never will, and one that ran only after that probe although nothing had written to the self-pipe would have "
+    "waited for ever; a wait that expires although a wake-up was written is infrastructure trouble (exit 2), never a verdict",
 ]
 RULE = ("random scheduling programs (add_callback/spawn_callback, add_timeout absolute+timedelta, call_later, call_at, "
         "remove_timeout, busy callbacks, add_future, future resolution, raising callbacks, returned failed futures), "
-        "nested to depth 3; non-trivial = >=2 timeouts and (a removal of an armed timeout or an error ending or a late timer)")
+        "nested to depth 3; non-trivial = >=2 timeouts and (a removal of an armed timeout or an error ending or a late timer); "
+        "xloop: 2-3 real event loops in threads (asyncio.run / IOLoop.start; idle, far timer, asyncio debug, 20 ms ticker), "
+        "bursts of add_callback/spawn_callback (args, kwargs, closure) from a plain thread, an executor thread, or a "
+        "callback / coroutine / IOLoop callback / timer / gen.coroutine of another loop or of the target loop itself, "
+        "every calling context towards every target configuration in both tiers; non-trivial = a thread-safe enqueue happened")
 EXHAUSTIVE = {"quick": False, "thorough": False}
 CLAUSES = {
     "callbacks each run exactly once, in scheduling order per thread": "callback_once_fifo + callback_all_ran_when_idle "
-        "(loop thread and pre-loop scheduling); other threads: tie only (thorough tier, real threads)",
+        "(loop thread and pre-loop scheduling); from another thread / from code running on another event loop: "
+        "add_callback_any_thread + add_callback_path (xloop cases tie the branch and the delivery to real loops in real "
+        "threads, both tiers); many concurrent plain threads: tie only (thorough tier)",
     "timeouts run not before their deadline": "timeout_not_before_deadline",
     "timeouts never run after remove_timeout": "removed_never_runs",
     "timeouts run once, in deadline order": "tie only: Spec.whenOrder / timerAtMostOnce / timersAccounted evaluated on every "
@@ -47,7 +65,7 @@ CLAUSES = {
     "run_sync returns the result, re-raises, or raises TimeoutError after cancelling": "run_sync_outcomes (+ run_sync_result/_reraises/_timeout/_never_completing)",
 }
 PARALLEL = False
-CASE_TIMEOUT = 20
+CASE_TIMEOUT = 60
 BASE = 1000.0
 FORMS = ["abs", "td", "later", "at"]
 ENDS = ["ok", "ok", "ok", "raise", "raise", "retFailed", "retOk", "retOther"]
@@ -117,8 +135,51 @@ def _gen_runsync(rng):
             "variant": rng.choice(["coro", "gen", "future"])}
 
 
+XFORMS = ["plain", "executor", "callback", "coro", "ioloop_cb", "timer", "gen"]   # where the calling code runs
+XLOOPFORMS = [f for f in XFORMS if f not in ("plain", "executor")]                # ... with a running loop
+XAPIS = ["args", "kwargs", "closure", "spawn", "spawn_kw"]
+XMAKES = ["asyncio_run", "ioloop_start"]
+XSTATES = ["idle", "far_timer", "debug", "near_timer"]
+XWAIT = 1.5       # bounded wait (s) for callbacks handed to a loop; tripled on every retry
+XCTL = 12.0       # generous wait (s) for the harness's own control paths (raw asyncio call_soon_threadsafe)
+
+
+def _gen_xloop(rng, target=None, nloops=2, extra=4, maxn=8):
+    loops = [target or {"make": rng.choice(XMAKES), "state": rng.choice(XSTATES)}]
+    for _ in range(nloops - 1):
+        loops.append({"make": rng.choice(XMAKES), "state": rng.choice(XSTATES)})
+    apis = XAPIS[:]
+    rng.shuffle(apis)
+    ns = [1, 1, 2, 3, 5, maxn]
+
+    def burst(form, src, dst, i):
+        return {"form": form, "src": src, "dst": dst, "api": apis[i % len(apis)] if rng.random() < 0.7 else rng.choice(XAPIS),
+                "n": rng.choice(ns)}
+    # every calling context, from another loop towards loop 0
+    bursts = [burst(f, rng.randint(1, nloops - 1), 0, i) for i, f in enumerate(XFORMS)]
+    for j in range(extra):
+        r = rng.random()
+        if r < 0.4:       # the target's own thread
+            d = rng.randint(0, nloops - 1)
+            bursts.append(burst(rng.choice(XFORMS), d, d, j))
+        elif r < 0.8:     # the other direction / other pairs
+            a, b = rng.sample(range(nloops), 2)
+            bursts.append(burst(rng.choice(XFORMS), a, b, j))
+        else:
+            bursts.append(burst(rng.choice(XLOOPFORMS), rng.randint(1, nloops - 1), 0, j))
+    rng.shuffle(bursts)
+    return {"kind": "xloop", "loops": loops, "bursts": bursts}
+
+
 def gen_cases(rng, tier):
     n_p, n_r, n_t = {"quick": (3000, 600, 0), "thorough": (60000, 6000, 12), "search": (2500, 400, 0)}[tier]
+    # two real event loops in two threads (seeded/C38-1): systematic over how the target loop was made and what it is doing
+    if tier != "search":
+        for make in XMAKES:
+            for state in XSTATES:
+                yield _gen_xloop(rng, {"make": make, "state": state})
+    for _ in range({"quick": 0, "thorough": 40, "search": 6}[tier]):
+        yield _gen_xloop(rng, None, nloops=rng.choice([2, 2, 3]), extra=rng.randint(0, 9), maxn=rng.choice([8, 30]))
     for _ in range(n_p):
         yield _gen_prog(rng)
     for _ in range(n_r):
@@ -423,7 +484,290 @@ def _run_threads(case):
             "timeout": bool(result.get("timeout")) or th.is_alive()}
 
 
+# ------------------------------------------------------------------------------------------ two real loops (xloop)
+XTRIG, XPROBE = 100000, 200000     # ids of the harness's own (raw asyncio) handles; callback ids are burst*100+i
+
+
+class _XInfra(Exception):
+    pass
+
+
+class _XLoop:
+    """one real event loop + its tornado IOLoop in a thread of its own, with three observation points: the selector
+    (is the loop blocked in select() without a near timeout?), call_soon/call_soon_threadsafe (which branch did
+    add_callback take?) and _write_to_self (was the loop asked to wake up?)"""
+
+    def __init__(self, idx, spec):
+        self.idx, self.make, self.state = idx, spec["make"], spec["state"]
+        self.ready, self.idle = threading.Event(), threading.Event()
+        self.ran, self.paths, self.wrong_thread = [], [], []
+        self.wakeups = 0
+        self.pending, self.done = set(), None
+        self.stopping = False
+        self.err = None
+        self.thread = threading.Thread(target=self._main, name="c38-xloop-%d" % idx, daemon=True)
+
+    # -- runs on the loop thread
+    def _setup(self, aio, io):
+        self.aio, self.io = aio, io
+        sel = aio._selector
+        orig_select = sel.select
+
+        def select(timeout=None):
+            if timeout is None or timeout > 60:
+                self.idle.set()
+            try:
+                return orig_select(timeout)
+            finally:
+                self.idle.clear()
+        sel.select = select
+        orig_soon, orig_ts, orig_wake = aio.call_soon, aio.call_soon_threadsafe, aio._write_to_self
+
+        def xid_of(cb, args):
+            if getattr(cb, "__name__", "") != "_run_callback" or not args:
+                return None
+            p = args[0]
+            f = getattr(p, "func", None)
+            if f is None:
+                return None
+            if getattr(f, "__func__", None) is _XLoop.cb:
+                return p.args[0] if p.args else (p.keywords or {}).get("xid")
+            return getattr(f, "_xid", None)
+
+        def call_soon(cb, *args, **kw):
+            x = xid_of(cb, args)
+            if x is not None:
+                self.paths.append(["soon", x])
+            return orig_soon(cb, *args, **kw)
+
+        def call_soon_threadsafe(cb, *args, **kw):
+            x = xid_of(cb, args)
+            if x is not None:
+                self.paths.append(["threadsafe", x])
+            return orig_ts(cb, *args, **kw)
+
+        def write_to_self():
+            self.wakeups += 1
+            return orig_wake()
+        aio.call_soon, aio.call_soon_threadsafe, aio._write_to_self = call_soon, call_soon_threadsafe, write_to_self
+        if self.state == "far_timer":
+            aio.call_later(3600, lambda: None)
+        elif self.state == "near_timer":
+            def tick():
+                if not self.stopping:
+                    aio.call_later(0.02, tick)
+            tick()
+        self.ready.set()
+
+    def _main(self):
+        from tornado.ioloop import IOLoop
+        try:
+            if self.make == "asyncio_run":
+                async def main():
+                    self.stop_evt = asyncio.Event()
+                    self._setup(asyncio.get_running_loop(), IOLoop.current())
+                    await self.stop_evt.wait()
+                asyncio.run(main(), debug=(self.state == "debug"))
+            else:
+                io = IOLoop(make_current=False)
+                aio = io.asyncio_loop
+                aio.set_debug(self.state == "debug")
+                aio.call_soon(self._setup, aio, io)
+                try:
+                    io.start()
+                finally:
+                    io.close(all_fds=True)
+        except BaseException as e:      # reported as infrastructure trouble by whoever waits for this loop
+            self.err = "%s: %s" % (type(e).__name__, e)
+
+    def cb(self, xid):
+        if threading.current_thread() is not self.thread:
+            self.wrong_thread.append(xid)
+        self.ran.append(xid)
+        self.pending.discard(xid)
+        if not self.pending and self.done is not None:
+            self.done.set()
+
+    # -- called from the harness thread; only raw asyncio, never the code under test
+    def raw(self, fn, *args):
+        try:
+            self.aio.call_soon_threadsafe(fn, *args)
+        except RuntimeError as e:
+            raise _XInfra("loop %d is closed: %s (%s)" % (self.idx, e, self.err))
+
+    def start(self):
+        self.thread.start()
+        if not self.ready.wait(XCTL):
+            raise _XInfra("loop %d did not start (%s)" % (self.idx, self.err))
+
+    def wait_idle(self):
+        if self.state == "near_timer":
+            return
+        if not self.idle.wait(XCTL):
+            raise _XInfra("loop %d did not go idle (%s)" % (self.idx, self.err))
+
+    def probe(self, pid):
+        ev = threading.Event()
+
+        def fn():
+            self.ran.append(pid)
+            ev.set()
+        t0 = time.monotonic()
+        self.raw(fn)
+        if not ev.wait(XCTL):
+            raise _XInfra("loop %d does not answer a raw call_soon_threadsafe within %.0fs (%s)" % (self.idx, XCTL, self.err))
+        return time.monotonic() - t0
+
+    def stop(self):
+        self.stopping = True
+        try:
+            if self.make == "asyncio_run":
+                self.aio.call_soon_threadsafe(self.stop_evt.set)
+            else:
+                self.aio.call_soon_threadsafe(self.io.stop)
+        except Exception:
+            pass
+
+    def join(self):
+        self.thread.join(5)
+
+
+def _x_call(dst, api, xid):
+    io = dst.io
+    if api == "args":
+        io.add_callback(dst.cb, xid)
+    elif api == "kwargs":
+        io.add_callback(dst.cb, xid=xid)
+    elif api == "spawn":
+        io.spawn_callback(dst.cb, xid)
+    elif api == "spawn_kw":
+        io.spawn_callback(dst.cb, xid=xid)
+    else:
+        def f():
+            dst.cb(xid)
+        f._xid = xid
+        io.add_callback(f)
+
+
+def _x_burst(loops, b, bidx, wait):
+    """-> None | {"missing": [...], "late": [...], ...} (the burst's callbacks did not all run by themselves)"""
+    from tornado import gen
+    src, dst = loops[b["src"]], loops[b["dst"]]
+    ids = [bidx * 100 + i for i in range(b["n"])]
+    dst.pending, dst.done = set(ids), threading.Event()
+    called, call_exc = threading.Event(), []
+
+    def do_calls():
+        try:
+            for x in ids:
+                _x_call(dst, b["api"], x)
+        except BaseException as e:
+            call_exc.append("%s: %s" % (type(e).__name__, e))
+
+    form = b["form"]
+    dst.wait_idle()
+    if form == "plain":
+        t = threading.Thread(target=lambda: (do_calls(), called.set()), daemon=True)
+        w0 = dst.wakeups
+        t.start()
+    else:
+        src.wait_idle()
+        aio, io = src.aio, src.io
+        both = lambda: (do_calls(), called.set())
+
+        def starter():
+            src.ran.append(XTRIG + bidx)
+            if form == "callback":
+                both()
+            elif form == "coro":
+                async def co():
+                    await asyncio.sleep(0)
+                    both()
+                src._keep = asyncio.ensure_future(co())
+            elif form == "ioloop_cb":
+                io.add_callback(both)
+            elif form == "timer":
+                io.call_later(0.001, both)
+            elif form == "gen":
+                @gen.coroutine
+                def g():
+                    yield gen.moment
+                    both()
+                src._keep = g()
+            else:   # executor: a worker thread of loop src's default executor (no running loop there)
+                async def co():
+                    await aio.run_in_executor(None, do_calls)
+                    called.set()
+                src._keep = asyncio.ensure_future(co())
+        w0 = dst.wakeups
+        src.raw(starter)
+    if not called.wait(XCTL):
+        raise _XInfra("burst %d: the calling code (%s on loop %d) never ran (%s)" % (bidx, form, b["src"], src.err))
+    finished = dst.done.wait(wait)
+    # wake-ups requested while the callbacks were outstanding.  A trigger delivered to dst itself (src == dst) is a
+    # wake-up of the harness, made before the calls; it does not count.
+    before = list(dst.ran)
+    woken = dst.wakeups - w0 - (1 if (form != "plain" and src is dst) else 0)
+    lat = dst.probe(XPROBE + bidx)
+    if finished:
+        return None
+    after = list(dst.ran)
+    missing = [x for x in ids if x not in before]
+    never = [x for x in ids if x not in after]
+    late = [x for x in missing if x in after]
+    if never or woken <= 0:
+        # clock-free: either a later handle (the probe) has run and these have not (FIFO: they never will), or they sat in
+        # the queue of a loop nobody had asked to wake up
+        dst.ran[:] = before
+        return {"burst": bidx, "missing": missing, "late": late, "never": never, "wakeups_requested": max(woken, 0),
+                "waited_s": wait, "probe_answered_in_ms": int(lat * 1000), "call_exc": call_exc[:2]}
+    raise _XInfra("burst %d: %d wake-up(s) were written to loop %d but its callbacks %r had not run after %.1fs "
+                  "(probe answered in %.3fs): machine too slow" % (bidx, woken, b["dst"], missing, wait, lat))
+
+
+def _run_xloop_once(case, wait):
+    loops = [_XLoop(i, spec) for i, spec in enumerate(case["loops"])]
+    stuck, done_bursts = None, 0
+    alg = logging.getLogger("asyncio")
+    asaved, alg.disabled = alg.disabled, True
+    try:
+        for lp in loops:
+            lp.start()
+        for bidx, b in enumerate(case["bursts"]):
+            stuck = _x_burst(loops, b, bidx, wait)
+            done_bursts = bidx + 1
+            if stuck:
+                break
+        return {"loops": [{"paths": [list(p) for p in lp.paths], "ran": list(lp.ran)} for lp in loops],
+                "wrong_thread": sorted(x for lp in loops for x in lp.wrong_thread),
+                "bursts_done": done_bursts, "stuck": stuck}
+    finally:
+        for lp in loops:
+            if lp.ready.is_set():
+                lp.stop()
+        for lp in loops:
+            if lp.ready.is_set():
+                lp.join()
+        alg.disabled = asaved
+
+
+def _run_xloop(case):
+    why = None
+    for attempt in range(3):
+        try:
+            return _run_xloop_once(case, XWAIT * (3 ** attempt))
+        except _XInfra as e:
+            why = str(e)
+        except Exception as e:      # nothing of the code under test runs on this thread: harness trouble, watchdog included
+            why = "%s: %s" % (type(e).__name__, e)
+            break
+    return {"infra": why}
+
+
+
 def run_impl(case):
+    if case["kind"] == "xloop":
+        return _run_xloop(case)
     if case["kind"] == "prog":
         return _run_prog(case)
     if case["kind"] == "runsync":
@@ -470,9 +814,42 @@ def _plain(v):
     return v
 
 
+def _x_ops(case, upto):
+    """the op sequence of each loop (XThread.Op) for the first `upto` bursts, as the harness drives them"""
+    T = [atom("turn")]
+    ops = [[T] for _ in case["loops"]]           # every loop first goes idle
+    sched = [[] for _ in case["loops"]]
+    for bidx, b in enumerate(case["bursts"][:upto]):
+        s_, d = b["src"], b["dst"]
+        ids = [bidx * 100 + i for i in range(b["n"])]
+        running = None if b["form"] in ("plain", "executor") else s_
+        calls = [[atom("call"), running, x] for x in ids]
+        trig = [[atom("inject"), XTRIG + bidx], T, T]
+        if b["form"] == "plain":
+            ops[d] += calls + [T, T, T]
+        elif s_ == d:
+            ops[d] += trig + calls + [T, T, T]
+        else:
+            ops[s_] += trig + [T]
+            ops[d] += calls + [T, T, T]
+        ops[d] += [[atom("inject"), XPROBE + bidx], T, T, T]
+        sched[d] += ids
+    return ops, sched
+
+
+def _x_check_infra(impl):
+    if "infra" in impl:
+        # infrastructure trouble ends the run with exit 2 (harness error), never with a verdict
+        raise RuntimeError("C38 xloop infrastructure trouble: %s" % impl["infra"])
+
+
 def model_requests(case, impl):
     if "harness_exc" in impl:
         return []
+    if case["kind"] == "xloop":
+        _x_check_infra(impl)
+        ops, _ = _x_ops(case, impl["bursts_done"])
+        return [line(ID, "xthread", i, o) for i, o in enumerate(ops)]
     if case["kind"] == "prog":
         pref = [e[1] for e in impl["events"] if e[0] == "ranT"]
         return [line(ID, "run", _w_tbl(case["tbl"]), pref, [_w_act(a) for a in case["main"]], 3000)]
@@ -482,6 +859,14 @@ def model_requests(case, impl):
 
 
 def model_result(case, replies):
+    if case["kind"] == "xloop":
+        out = []
+        for r in replies:
+            st, vals = parse_reply(r)
+            if st != "ok":
+                return {"err": vals}
+            out.append({"paths": _plain(vals[0]), "ran": _plain(vals[1]), "stuck": bool(vals[2])})
+        return out
     if case["kind"] == "prog":
         st, vals = parse_reply(replies[0])
         if st != "ok":
@@ -494,6 +879,10 @@ def model_result(case, replies):
 
 
 def impl_view(case, impl):
+    if case["kind"] == "xloop":
+        sd = case["bursts"][impl["stuck"]["burst"]]["dst"] if impl["stuck"] else None
+        return [{"paths": [p for p, _ in lp["paths"]], "ran": lp["ran"], "stuck": i == sd}
+                for i, lp in enumerate(impl["loops"])]
     if case["kind"] == "prog":
         return {"events": _plain([_w_ev(e) for e in impl["events"]]), "idle": impl["idle"]}
     if case["kind"] == "runsync":
@@ -504,6 +893,10 @@ def impl_view(case, impl):
 def spec_requests(case, impl):
     if "harness_exc" in impl:
         return []
+    if case["kind"] == "xloop":
+        _x_check_infra(impl)
+        _, sched = _x_ops(case, impl["bursts_done"])
+        return [line(ID, "xspec", sc, [x for x in lp["ran"] if x < XTRIG]) for sc, lp in zip(sched, impl["loops"])]
     if case["kind"] == "prog":
         return [line(ID, "spec", [_w_ev(e) for e in impl["events"]], atom(bool(impl["idle"])))]
     if case["kind"] == "runsync":
@@ -512,6 +905,28 @@ def spec_requests(case, impl):
 
 
 def spec_violation(case, impl, replies):
+    if case["kind"] == "xloop":
+        bad = []
+        for i, r in enumerate(replies):
+            st, vals = parse_reply(r)
+            if st != "ok":
+                return "xloop: observed run is not expressible (%s)" % (vals,)
+            bad += ["%s(loop %d)" % (c, i) for c in map(str, vals[0])]
+        if impl["wrong_thread"]:
+            bad.append("loop_thread(callbacks %r ran on a thread that is not their loop's)" % impl["wrong_thread"][:5])
+        if bad or impl["stuck"]:
+            st = impl["stuck"]
+            more = ""
+            if st:
+                b = case["bursts"][st["burst"]]
+                more = (": callbacks %r handed to loop %d (%s, %s) with %s by %s code of loop %d did not run by themselves "
+                        "(%d wake-up requests reached the loop in %.1fs; never ran: %r; ran only after an unrelated "
+                        "wake-up: %r)" % (st["missing"], b["dst"], case["loops"][b["dst"]]["make"],
+                                          case["loops"][b["dst"]]["state"], b["api"], b["form"], b["src"],
+                                          st["wakeups_requested"], st["waited_s"], st["never"], st["late"]))
+            clauses = sorted(set(x.split("(")[0] for x in bad) | ({"exactly_once"} if st else set()))
+            return "clause %s violated by the two-loop run %s%s" % ("+".join(clauses), " ".join(bad), more)
+        return None
     if case["kind"] == "prog":
         if not impl["idle"]:
             return "loop did not become idle within 400 iterations"
@@ -536,6 +951,8 @@ def spec_violation(case, impl, replies):
 
 
 def nontrivial(case, impl):
+    if case["kind"] == "xloop":
+        return "loops" in impl and any(p == "threadsafe" for lp in impl["loops"] for p, _ in lp["paths"])
     if case["kind"] == "prog":
         evs = impl["events"]
         nt = sum(1 for e in evs if e[0] == "schedT")
@@ -548,6 +965,16 @@ def nontrivial(case, impl):
 
 def stats(case, impl):
     out = ["kind:" + case["kind"]]
+    if case["kind"] == "xloop":
+        if "loops" not in impl:
+            return out + ["xloop:infra"]
+        for b in case["bursts"][:impl["bursts_done"]]:
+            rel = "own-loop" if b["src"] == b["dst"] and b["form"] != "plain" else "foreign"
+            out += ["xloop:form:%s:%s" % (b["form"], rel), "xloop:api:" + b["api"],
+                    "xloop:target:%s:%s" % (case["loops"][b["dst"]]["make"], case["loops"][b["dst"]]["state"])]
+        for lp in impl["loops"]:
+            out += ["xloop:path:" + p for p, _ in lp["paths"]]
+        return out
     if case["kind"] == "prog":
         evs = impl["events"]
         for e in evs:
@@ -580,6 +1007,22 @@ def signature(case, impl, why):
 
 
 def shrink(case):
+    if case["kind"] == "xloop":
+        bs = case["bursts"]
+        if len(bs) > 1:
+            for b in bs:
+                yield {**case, "bursts": [b]}
+            for i in range(len(bs)):
+                yield {**case, "bursts": bs[:i] + bs[i + 1:]}
+        for i, b in enumerate(bs):
+            if b["n"] > 1:
+                yield {**case, "bursts": bs[:i] + [{**b, "n": 1}] + bs[i + 1:]}
+            if b["api"] != "args":
+                yield {**case, "bursts": bs[:i] + [{**b, "api": "args"}] + bs[i + 1:]}
+        used = {b["src"] for b in bs} | {b["dst"] for b in bs}
+        if len(case["loops"]) > 2 and len(used) <= 2 and max(used) < 2:
+            yield {**case, "loops": case["loops"][:2]}
+        return
     if case["kind"] != "prog":
         return
     main = case["main"]
